@@ -27,7 +27,7 @@ CHECKS = {
     ),
     "C04": (
         "recording-stub execution monitor (native + valgrind memcheck + Miri, ASan in thorough) of emitted virtual wrappers on raw-memory objects and tables; exhaustive slot-position sweep; compiled slot offsets at widths 4/8",
-        "Executes every emitted virtual wrapper of generated accepted types against a raw fake vftable whose entries are distinct typed recording stubs and judges the recorded (stub id, receiver, arguments, return) offline: exactly one entry, the declared slot, receiver = object, arguments in order, result returned; a compiler error located inside the emitted text of an accepted input is a violation (the wrapper cannot be invoked at all); parameter names include the wrappers' own locals (`f`, `_f`, `this`) and a virtual function may also claim an #[address] (hostile); sanitizers watch for out-of-table or misaligned reads. Slot positions are checked exhaustively for all blocks within stated bounds against the reference slot rule (contradictions must be rejected), and compiled slot byte offsets via the windows-msvc layout dump at both widths. Exploration, exhaustive for the slot sweep.",
+        "Executes every emitted virtual wrapper of generated accepted types against a raw fake vftable whose entries are distinct typed recording stubs and judges the recorded (stub id, receiver, arguments, return) offline: exactly one entry, the declared slot, receiver = object, arguments in order, result returned; a compiler error located inside the emitted text of an accepted input is a violation (the wrapper cannot be invoked at all); parameter names include the wrappers' own locals (`f`, `_f`, `this`) and a virtual function may also claim an #[address] or carry the generated name of a placeholder slot (hostile); every case is built right after another input set with the same module and type paths on the same thread (state kept between builds); sanitizers watch for out-of-table or misaligned reads. Slot positions are checked exhaustively for all blocks within stated bounds against the reference slot rule (contradictions must be rejected), and compiled slot byte offsets via the windows-msvc layout dump at both widths. Exploration, exhaustive for the slot sweep.",
         "Trusted: Miri/valgrind/ASan; rustc; the reference slot rule (refprog::slots); execution is on the 64-bit host with ABI strings normalised to C; assumption stated in the property that a vftable-carrying first base sits at offset 0.",
         "DESIGN.md §6 C04",
     ),
@@ -39,13 +39,13 @@ CHECKS = {
     ),
     "C06": (
         "enumerated inheritance shapes + single-slot mutants; executed vftable() accessor on raw objects (native, valgrind, Miri); emitted struct shape",
-        "Enumerates chain depth x bases x vftable presence x derived block shapes at both widths, requires every single-slot mutation of a compatible derived table to be rejected (vacuity guarded by requiring the compatible table to be accepted), including mutants at placeholder and underscore-named slots, empty blocks, and a receiver replaced by an ordinary `this` parameter; shapes include empty `vftable {}` roots and first bases that are empty, zero-sized or without a table while a later base has one; checks that owners have exactly one private pointer-typed vftable field first and derived types none, and executes the accessor to compare with the pointer stored in the base sub-object. Exploration with an enumerated core.",
+        "Enumerates chain depth x bases x vftable presence x derived block shapes at both widths, requires every single-slot mutation of a compatible derived table to be rejected (vacuity guarded by requiring the compatible table to be accepted), including mutants at placeholder and underscore-named slots, empty blocks, and a receiver replaced by an ordinary `this` parameter, each mutant alone and next to a compatible sibling over the same base (either name and declaration order, repeated for hash order); shapes include empty `vftable {}` roots and first bases that are empty, zero-sized or without a table while a later base has one; checks that owners have exactly one private pointer-typed vftable field first and derived types none, and executes the accessor to compare with the pointer stored in the base sub-object. Exploration with an enumerated core.",
         "Trusted: Miri/valgrind; rustc; syn; reference vftable-ownership rule.",
         "DESIGN.md §6 C06",
     ),
     "C07": (
         "recording-stub/trampoline execution monitor of re-exposed base members and AsRef/AsMut on raw objects (native, valgrind, Miri) + emitted method/impl sets vs reference method-set model",
-        "For generated hierarchies (depth 1-4, up to three bases, diamonds, name clashes, private members, extern types as bases, same-named base types from different modules) every re-exposed method must exist under the reference name, forward to the right field and, when executed, enter the original callee with receiver = object + compiler-computed sub-object offset, same arguments and result; AsRef/AsMut must return object + sub-object offset for base types occurring once and be absent otherwise. Exploration.",
+        "For generated hierarchies (depth 1-4, up to three bases, diamonds, name clashes, private members, extern types as bases, same-named base types from different modules) every re-exposed method must exist under the reference name, forward to the right field and, when executed, enter the original callee with receiver = object + compiler-computed sub-object offset, same arguments and result; AsRef/AsMut must return object + sub-object offset for base types occurring once and be absent otherwise; every case is built right after another hierarchy under the same module and type paths on the same thread, so that anything pyxis keeps between builds meets a different definition under the same key. Exploration.",
         "Trusted: reference method-set model (refprog::associated, naming rule first-come with <field>_<name> on clash); offset_of! for sub-object offsets; Miri/valgrind.",
         "DESIGN.md §6 C07",
     ),
@@ -57,7 +57,7 @@ CHECKS = {
     ),
     "C09": (
         "schedule-enumerating determinism monitor: work-list hook permutations (complete <=6 items), re-drawn priorities, module add/write orders, repeated in-process builds, fresh child processes; byte comparison of outputs",
-        "For order-sensitive input sets (generated programs, dependency graphs incl. failing ones, dedicated sets around generated vftable structs, base fields with explicit addresses, marker chains, cross-module cycles) drives the real build under every priority permutation of the user items through the hook in TypeRegistry::unresolved (complete for <=6 items, sampled beyond), priorities re-drawn on new registry keys, all module addition and write orders, repeated builds with fresh hash keys and fresh child processes on a real directory, and requires one Ok/Err verdict and byte-identical files. Exhaustive over work-list priority orders for small sets; sampled otherwise.",
+        "For order-sensitive input sets (generated programs, dependency graphs incl. failing ones, dedicated sets around generated vftable structs (referred to by pointer and by value, owner and embedder waiting for each other), base fields with explicit addresses, marker chains, cross-module cycles) drives the real build under every priority permutation of the user items through the hook in TypeRegistry::unresolved (complete for <=6 items, sampled beyond), priorities re-drawn on new registry keys, all module addition and write orders, repeated builds with fresh hash keys and fresh child processes on a real directory, and requires one Ok/Err verdict and byte-identical files. Exhaustive over work-list priority orders for small sets; sampled otherwise.",
         "Trusted: the scheduler hook realises only orders a hash map could produce (priority order fixed until a new key is registered); error texts are not compared.",
         "DESIGN.md §6 C09",
     ),
@@ -87,7 +87,7 @@ CHECKS = {
     ),
     "C14": (
         "directory-level output monitor: pyxis::build on generated trees, listing + syn item multiset + prologue/epilogue token comparison; collision inputs; registry hook events",
-        "Writes hundreds (quick) to thousands (thorough) of generated multi-module trees (nested directories, empty modules, rust and foreign backend blocks) to real directories, runs pyxis::build and compares the output directory listing and each file's top-level items with the declarations; input directories spelt relative to the working directory (`./x`, `x/`, repeated names, dotted file names, glob metacharacters) are built in child processes; sections ending in line comments, twin extern values at one address and multi-round resolution inputs are included; a module path added twice must not replace the first; five kinds of colliding declarations must be rejected (hook event RegistryAdd{replaced: different} records a silent overwrite). Exploration.",
+        "Writes hundreds (quick) to thousands (thorough) of generated multi-module trees (nested directories, empty modules, rust and foreign backend blocks) to real directories, runs pyxis::build and compares the output directory listing and each file's top-level items with the declarations; input directories spelt relative to the working directory (`./x`, `x/`, repeated names, dotted file names, glob metacharacters, dot-directories and `..` on the way) are built in child processes; sections ending in line comments, twin extern values at one address and multi-round resolution inputs are included; a module path added twice must not replace the first; five kinds of colliding declarations must be rejected (hook event RegistryAdd{replaced: different} records a silent overwrite). Exploration.",
         "Trusted: syn as reader of emitted text; the reference list of expected items (types, enums, one <T>Vftable per vftable block, one get_<name> per extern value).",
         "DESIGN.md §6 C14",
     ),
@@ -111,7 +111,7 @@ CHECKS = {
     ),
     "C19": (
         "metamorphic output monitor: bytes of the observed module's file across input sets that differ only outside its reachable closure",
-        "For generated accepted multi-module sets with an observed module M, builds variants that remove, replace or add modules outside M's import closure (same short names elsewhere, in an ancestor and nested under M's path with vftable-bearing types, 40 filler types), and variants that add definitions M does not reference to a module M imports from (named like M's own types and generated vftable structs; item import, module import, both; both add orders), and requires byte-identical files for M and its closure whenever the variant is still accepted. Exploration.",
+        "For generated accepted multi-module sets with an observed module M, builds variants that remove, replace or add modules outside M's import closure (same short names elsewhere, in an ancestor and nested under M's path with vftable-bearing types, 40 filler types, M's extern type names declared earlier elsewhere with other sizes), and variants that add definitions M does not reference to a module M imports from (named like M's own types and generated vftable structs; item import, module import, both; both add orders), and requires byte-identical files for M and its closure whenever the variant is still accepted. Exploration.",
         "Trusted: closure computed from use paths; byte comparison.",
         "DESIGN.md §6 C19",
     ),
